@@ -47,6 +47,111 @@ func propDefs() map[string]*PropDef {
 		},
 		DesignRef: "DESIGN.md section 5 C10",
 	}
+	safetyInc := []string{`^safety/`, `^cast/`, `^extent/`, `/call:`, `/loop\d+/`, `/pure`, `/noop_frame`, `/result`}
+	m["C01"] = &PropDef{
+		ID: "C01",
+		Funcs: append(treeFuncs([]string{"Search", "Delete", "Insert"},
+			map[string][]string{"Search": safetyInc, "Delete": safetyInc, "Insert": safetyInc},
+			map[string][]string{"Insert": insertRung2}), helperFuncs(nil)...),
+		Floor: 2000,
+		Assumptions: []string{
+			"SCOPE: this check decides the 'each call returns normally' half of C01 (no index/slice/nil/cast/overflow fault, no reachable panic, every callee precondition met) for Insert, Search and Delete of the five generated tree kinds, for every tree satisfying the typing invariant WF1 - i.e. every reachable tree, PROVIDED WF1 is preserved by Insert/Delete. The functional half (results equal those of an ideal map; no key lost or resurrected) needs the path-coherence invariant (rung 2 of DESIGN.md) and is NOT decided here; collation trees are not covered yet",
+			"WF1 preservation by Insert/Delete is proved for part of the cases only (evidence of C11 lists which); it is assumed here",
+			"ASSUMED, not proved: LinkedLive (no live node references a pooled or empty node: consequence of unique-parent ownership); acyclicity at the merge in Delete (the surviving child is not the holder of the relinked slot) and absence of uint32 overflow of the merged path length; key lengths and sizes < 2^31 / 2^62",
+			"three obligations of Insert (second branch byte differs from the first; long-path leaf key long enough; its extent) need path coherence and are generated but not claimed",
+			"known finding F8 (alpha keys with embedded 0x00 are not prefix-free: Insert(\"a\"); Insert(\"a\\x00\") loses a key) is outside this check's scope (functional half)",
+		},
+		DesignRef: "DESIGN.md section 5 C01",
+	}
+	m["C06"] = &PropDef{
+		ID: "C06",
+		Funcs: treeFuncs([]string{"Size", "Delete", "Insert"},
+			map[string][]string{"Size": {`/result`, `/pure`}, "Delete": {`/size`, `/noop_frame`}, "Insert": {`/size_accounting`}},
+			// leaf split where one transformed key is a proper prefix of the other: size++ without a new
+			// leaf. Unreachable for prefix-free codecs (fixed-width numerics, codec hypothesis of compound
+			// trees) but that needs path coherence (rung 2): generated, not claimed. For alpha trees it is
+			// reachable (keys with embedded 0x00): known finding F8.
+			map[string][]string{"Insert": {`^C/\(\*(unsigned|signed|float|compound)SortedTree\[K,V\]\)\.Insert/size_accounting@ret#8/calls\("Insert\$1"\)=0`}}),
+		Floor: 60,
+		Assumptions: []string{
+			"per-path accounting: on every return path of Insert, size - old(size) equals the number of leaves created on that path (0 or 1); Delete decrements exactly when it returns true and leaves the heap untouched otherwise; Size returns the field and writes nothing",
+			"that a created leaf is linked exactly once and that an unlinked leaf was present (so that the counter equals the number of distinct keys) is the uniqueness clause of the tree invariant (rung 2), not decided here",
+			"glue G-card (paper): a counter that moves by +1/-1 exactly on adding a new / removing an existing element equals the cardinality",
+		},
+		DesignRef: "DESIGN.md section 5 C06",
+	}
+	m["C13"] = &PropDef{
+		ID: "C13",
+		Funcs: []FuncCheck{
+			{Fn: "(*alphaSortedTree[K,V]).Search", Layer: "C", Include: []string{`/arg_bytes_unchanged`, `/pure`}},
+			{Fn: "(*alphaSortedTree[K,V]).Delete", Layer: "C", Include: []string{`/arg_bytes_unchanged`, `/noop_frame`}},
+			{Fn: "(*alphaSortedTree[K,V]).Insert", Layer: "C", Include: []string{`/key_owned`, `/arg_bytes_unchanged@ret#(1|2|5|6|7)/`}},
+		},
+		Floor: 20,
+		Assumptions: []string{
+			"decided for the byte-string tree with K = []byte (the instantiation in which Transform returns the caller's slice): every byte of the key argument's backing object, including spare capacity, is unchanged after Search and Delete and on the return paths of Insert that call no node operation; every leaf allocated by Insert points into a byte object allocated inside the call (key_owned), so later caller writes cannot reach it",
+			"exact append semantics: in place when len < cap, fresh object otherwise; the three-index slice keyS[:len:len] makes the capacity test false",
+			"NOT claimed yet: arg_bytes_unchanged on the return paths of Insert that go through addChild (needs the byte-object frame of the node operations at the call site); Range and Prefix; collation trees",
+		},
+		DesignRef: "DESIGN.md section 5 C13",
+	}
+	m["C15"] = &PropDef{
+		ID: "C15",
+		Funcs: treeFuncs([]string{"Search", "Size", "Delete", "Insert"},
+			map[string][]string{"Search": {`/pure`}, "Size": {`/pure`}, "Delete": {`/noop_frame`}, "Insert": {`/overwrite_only_value@ret#7`}}, nil),
+		Floor: 100,
+		Assumptions: []string{
+			"frame obligations: Search and Size leave every heap array unchanged on every object that existed at entry; Delete returning false leaves the heap unchanged; the overwrite exit of Insert changes nothing but the value field of a leaf",
+			"Minimum/Maximum and the sequence methods are not covered yet (their closures are verified for the iterator protocol only)",
+			"glue (frame rule): a call that writes nothing in the tree cannot affect any later result",
+		},
+		DesignRef: "DESIGN.md section 5 C15",
+	}
+	seqClosures := []string{"all$1", "backward$1", "filter$1", "rangeScan$1", "topK$1", "bottomK$1",
+		"(*unsignedSortedTree[K,V]).Range$1", "(*signedSortedTree[K,V]).Range$1", "(*floatSortedTree[K,V]).Range$1"}
+	m["C14"] = &PropDef{
+		ID:     "C14",
+		Static: func(p *Program) []*Obligation { return reiterableObligations(p, seqClosures) },
+		Floor:  9,
+		Assumptions: []string{
+			"SCOPE: this check decides the re-iteration half of C14: no sequence closure (nor anything nested in it, including the synthetic range-over-func bodies) stores to a variable that outlives one invocation - captured variables of the function that created the sequence, or package-level variables. With the tree unchanged, a closure that writes nothing that survives it starts every invocation from the same state",
+			"glue G-det (paper): the closures are deterministic (no maps, goroutines, time, randomness) and read only their immutable captures and the heap",
+			"the 'stopped early: no further callback, no fault' half (protocol obligations on the traversal loops) is not registered yet",
+			"decided by static analysis of the SSA (store targets resolved through the closure-binding chain), not by the SMT solvers",
+		},
+		DesignRef: "DESIGN.md section 5 C14",
+	}
+	m["C16"] = &PropDef{
+		ID: "C16",
+		Funcs: treeFuncs([]string{"Search", "Size"},
+			map[string][]string{"Search": {`/pure`}, "Size": {`/pure`}}, nil),
+		Static: func(p *Program) []*Obligation {
+			return []*Obligation{globalsObligation(p), poolAccessObligation(p)}
+		},
+		Floor: 30,
+		Assumptions: []string{
+			"proof of PREMISES only: deductive verification explores no schedule and runs no race detector. What is proved is the footprint premise of the disjoint-concurrency rule: Search and Size of the byte-string, numeric and compound trees write no pre-existing heap object (so any number of them may run on one quiescent tree), the only package-level state is the node pool, written only by its initialiser and reached only through sync.Pool.Get/Put, and every node operation writes only its own node, the relinked slot and fresh pool nodes (frames of C12)",
+			"assumed: the parallel-composition rule of separation logic, Go's DRF-SC guarantee, thread safety of sync.Pool, purity of user codecs; ownership disjointness of distinct trees (tree invariant, rung 2)",
+			"Minimum/Maximum and the sequence methods are not covered yet; collation trees are outside the concurrent-reader claim by the statement",
+		},
+		DesignRef: "DESIGN.md section 5 C16",
+	}
+	m["C18"] = &PropDef{
+		ID: "C18",
+		Funcs: append(treeFuncs([]string{"Search", "Delete", "Insert"},
+			map[string][]string{"Search": {`^cast/`, `^extent/`}, "Delete": {`^cast/`, `^extent/`}, "Insert": {`^cast/`, `^extent/`, `/key_owned`}},
+			map[string][]string{"Insert": insertRung2}), helperFuncs([]string{`^cast/`, `^extent/`})...),
+		Static: func(p *Program) []*Obligation {
+			return []*Obligation{noPtrHideObligation(p), leafLayoutObligation(p)}
+		},
+		Floor: 100,
+		Assumptions: []string{
+			"proof of PREMISES only: no collector is run. Proved: every unsafe.Pointer -> *T conversion in Insert/Search/Delete and the descent helpers of the five generated kinds is applied to an object whose ghost allocation type is T (for V an uninterpreted type, so independent of the value type's size and pointer content); every unsafe.Slice(p, n) stays inside the byte object p points into; no pointer is converted to or from uintptr anywhere in the package; the five generated leaf structs are layout-identical",
+			"assumed: soundness of Go's collector and checkptr for heaps meeting these obligations; types.Sizes(gc, amd64) equals the compiler's layout; the typing invariant WF1 is preserved by Insert/Delete (see C11)",
+			"not covered yet: casts in the sequence closures, rangeScan, lowestCommonParent, restoreKey and collation.go",
+		},
+		DesignRef: "DESIGN.md section 5 C18",
+	}
 	m["C12"] = &PropDef{
 		ID: "C12",
 		// clear-before-release and relink-before-release at every Put site, Zero_c postconditions of
@@ -75,6 +180,40 @@ func nodeFuncs(include []string) []FuncCheck {
 		out = append(out, FuncCheck{Fn: f, Layer: "B", Include: include})
 	}
 	return out
+}
+
+var genKinds = []string{"alpha", "unsigned", "signed", "float", "compound"}
+
+// treeFuncs: the tree-level functions of the five generated kinds, with per-method filters.
+func treeFuncs(methods []string, include, exclude map[string][]string) []FuncCheck {
+	var out []FuncCheck
+	for _, k := range genKinds {
+		for _, m := range methods {
+			out = append(out, FuncCheck{Fn: "(*" + k + "SortedTree[K,V])." + m, Layer: "C", Include: include[m], Exclude: exclude[m]})
+		}
+	}
+	return out
+}
+
+func helperFuncs(include []string) []FuncCheck {
+	out := []FuncCheck{
+		{Fn: "(*node).checkPrefix", Layer: "C", Include: include},
+		{Fn: "longestCommonPrefix", Layer: "C", Include: include},
+		{Fn: "minimum", Layer: "C", Include: include},
+		{Fn: "maximum", Layer: "C", Include: include},
+	}
+	for _, k := range genKinds {
+		out = append(out, FuncCheck{Fn: "prefixMismatch@" + k, Layer: "C", Include: include})
+	}
+	return out
+}
+
+// obligations of Insert that need the path-coherence part of the tree invariant (rung 2):
+// generated and attempted on every run, but not part of any claim
+var insertRung2 = []string{
+	`call:\(\*node4\)\.addChild@newNode\.addChild\(ref,keyS\[depth\+prefixDiff\].*/requires#2\.1\.1`, // second branch byte differs from the first
+	`index@newNode\.addChild\(ref,leafKey\[depth\+prefixDiff\]`,                                        // long path: leaf key is long enough
+	`^extent/.*getTransformKey`,                                                                             // long path: minimum leaf's key extent after relinking
 }
 
 func node16OtherFuncs() []FuncCheck {
